@@ -43,7 +43,11 @@ def table_pairs():
     return [("plain", lambda: P.Table("old"), lambda: P.Table("new")),
             ("aliased-new", lambda: P.Table("old"), lambda: P.Table("new", alias="nw")),
             ("aliased-old", lambda: P.Table("old", alias="ol"), lambda: P.Table("new")),
-            ("schema", lambda: P.Table("old", schema="s1"), lambda: P.Table("new", schema=["db", "s2"]))]
+            ("schema", lambda: P.Table("old", schema="s1"), lambda: P.Table("new", schema=["db", "s2"])),
+            # pairs that are == as tables (name, schema, alias) but are written differently: a table and its temporal form
+            ("temporal-new", lambda: P.Table("old"), lambda: P.Table("old").for_(P.SYSTEM_TIME.as_of("2020-01-01"))),
+            ("temporal-old", lambda: P.Table("old").for_(P.SYSTEM_TIME.as_of("2020-01-01")), lambda: P.Table("old")),
+            ("same-name-other-schema", lambda: P.Table("old"), lambda: P.Table("old", schema="s9"))]
 
 
 def compare(label, build, mk_old, mk_new, ctx, corr, mk_third=lambda: P.Table("third")):
@@ -160,7 +164,7 @@ def check(run: core.Run):
         what="the replace_table statement", extra_violations=LazyViolations(), extra_cov=lazy_cov, extra_targets=["Gen/Children.v"],
         rule="for EVERY live Term subclass (reflection; itself and placed in each of 32 operand slots) and for statements of every kind (select with every clause, "
              "JOIN USING, sub-queries in FROM/IN, CTE, UPDATE..SET..FROM, INSERT..SELECT / VALUES, DELETE, set operation, window / CASE / unary minus / BETWEEN, star, "
-             "upsert, RETURNING, DISTINCT ON, PREWHERE) x 6 classes x table pairs (plain, aliased new, aliased old, schema-qualified, None): the object built over the old "
+             "upsert, RETURNING, DISTINCT ON, PREWHERE) x 6 classes x table pairs (plain, aliased new, aliased old, schema-qualified, a table and its temporal form both ways, same name in another schema, None): the object built over the old "
              "table and passed through replace_table(an EQUAL old table, new) must render, with qualifiers forced, exactly as the object built over the new table; the "
              "receiver must render as before; replacing the other table must leave the first one's references alone. Exact string equality between implementation outputs.",
         assumptions=["rendering with with_namespace forced shows every table reference a term holds"])
